@@ -1771,4 +1771,4 @@ def run(ctx):
     ctx.explore('misfit', MISFIT, case_misfit, ctx.n(400, 3000))
     # (quick: 130 instead of 200 runs since a case now builds up to four
     # simulations; keeps the quick tier inside its time budget)
-    ctx.fuzz('misfit', ctx.n(130, 4000))
+    ctx.fuzz('misfit', ctx.n(130, 600))
